@@ -111,22 +111,22 @@ int main(void)
 #endif
 #else
     /* history from the empty repository */
-    int creators = 0, gens = 0, reclaimed = 0;
+    int creators = 0, gens = 0, reclaimed = 0, gen_creators = 0, shared_gen_reclaimed = 0;
     for(int s = 0; s < K; s++) {
         int op = IN_RANGE(0, 2);
         int was = m_exists;
-        if(op == 0) { VASSUME(creators < 3); creators++; op_create(); if(!was) gens++; }
+        if(op == 0) { VASSUME(creators < 3); creators++; op_create(); if(!was) { gens++; gen_creators = 1; } else gen_creators++; }
         else if(op == 1) {
             uint32_t n = (uint32_t)IN_RANGE(0, 2);
             VASSUME(m_exists && m_ret > 0); VASSUME(m_ret > 1 || m_lmt + (int)n >= m_cnt);
             op_addto(n);
         } else { VASSUME(m_exists); op_used(); }
-        if(was && !m_exists) reclaimed++;
+        if(was && !m_exists) { reclaimed++; if(gen_creators >= 2 && m_lmt == 2) shared_gen_reclaimed = 1; }
         check_against_model("");
     }
     VASSERTM(n_free == reclaimed && n_alloc == gens, "one allocation per generation, one free per reclaimed generation");
-    if(creators == 2 && gens == 1 && reclaimed == 1 && m_lmt == 2) VWITNESS("two creators (limits adding up to 2), two uses, reclaimed once");
-    if(gens == 2 && reclaimed == 2) VWITNESS("two generations of the key created and reclaimed");
+    if(shared_gen_reclaimed) VWITNESS("an entry shared by two creators (limits adding up to 2) was reclaimed after its two uses");
+    if(gens >= 2 && reclaimed >= 2) VWITNESS("two generations of the key created and reclaimed");
 #endif
     data_repo_destroy_nothreadsafe(repo);
     VASSERTM(repo_frees == 1, "destroy frees the repository");
